@@ -5,12 +5,14 @@ from checks import lib, nsfam
 
 def fn(ck, a):
     if ck.tier == "thorough":
-        nsfam.run(ck, ["C17."], ns_ops=5, sim=(1500, 16), probes_n=0, probe_sample=None)
+        nsfam.run(ck, ["C17."], ns_ops=5, sim=(1500, 16), probes_n=0, probe_sample=None, cover=("LastView", 4))
     else:
-        nsfam.run(ck, ["C17."], ns_ops=4, sim=(80, 14), probes_n=0, probe_sample=None)
+        nsfam.run(ck, ["C17."], ns_ops=4, sim=(80, 14), probes_n=0, probe_sample=None, cover=("ActView", 3))
     ck.cov["rule"] = ("cases = namespace commands and LIST/LSUB probes executed on the real server along TLC-simulated histories "
                       "of spec/Namespace.tla and directed histories; every step validated by TLC against spec/NsProps.tla; "
                       "distinct non-trivial = distinct (command, outcome, pattern, reference, listed-anything)")
+    ck.cov["rule"] += ("; plus one replayed history per accepted transition of the model's quotient graph "
+                       "(spec/NamespaceCover.tla: VIEW = tree + last command, shortest history to every view state)")
     ck.cov["exhaustive"] = True
     ck.assumptions += ["tree = rows of the mailbox table (what LIST reads) and directories on disk, both projected after every step",
                        "only \\Noselect, \\HasChildren/\\HasNoChildren and presence are compared; line order and other attributes ignored"]
